@@ -323,7 +323,9 @@ func rawDecrypt(priv *PrivateKey, x1, y1 *big.Int, c2, c3 []byte) ([]byte, error
 	x2, y2 := curve.ScalarMult(x1, y1, priv.D.Bytes())
 	msgLen := len(c2)
 	msg := sm3.Kdf(append(bigIntToBytes(curve, x2), bigIntToBytes(curve, y2)...), msgLen)
-	if _subtle.ConstantTimeAllZero(c2) == 1 {
+	// B4: it is the mask t = KDF(x2||y2, klen) that must not be all zero (msg
+	// still holds t here); an all-zero C2 is a legitimate ciphertext.
+	if _subtle.ConstantTimeAllZero(msg) == 1 {
 		return nil, ErrDecryption
 	}
 
